@@ -130,6 +130,7 @@ package s2
 
 // A cell can only be reported as contained when it lies inside a single index cell (relation Indexed): a cell the index
 // subdivides has edges through it. An interior covering made of such cells would stick out of the polygon.
+//@ property C05 C06
 //@ func (p *Polygon) ContainsCell(cell Cell) bool
 //@   requires p != nil && vcSI(p.index) && !vcHeld(&p.index.mu) && p.index.status == fresh && vcIdx(p.index) && vcValid(cell.id) && vcPolyIndexOK(p)
 //@   modifies p.index.cells, p.index.cellMap, p.index.pendingRemovals, p.index.pendingAdditionsPos, p.index.status
